@@ -396,6 +396,53 @@ pub struct ShapeDom {
 }
 
 pub fn shape_of_kind(d: &mut Dec, kind: u32, dom: ShapeDom) -> Shape {
+    let s = shape_of_kind_plain(d, kind, dom);
+    constructor_route(d, s)
+}
+
+/// Half of the shapes are rebuilt through an equivalent public constructor (`with_center` of the centre,
+/// `from_circle`, `with_delta`, `from_slice`, `with_corners`, `with_equal_corners`, struct literals /
+/// public fields): the same object by documentation, through code that the plain `new` never runs. The
+/// route is a derived choice (no tape word). The result is asserted to be equal to the plain object —
+/// a difference is reported by the caller's oracle as whatever it breaks, and by C16 / C18 directly.
+pub fn constructor_route(d: &Dec, s: Shape) -> Shape {
+    let route = d.derived(0x5a4e, 8);
+    if route < 4 {
+        return s;
+    }
+    let alt = route % 2 == 0;
+    match s {
+        Shape::Rect(r) => Shape::Rect(match (r.bottom_right(), alt) {
+            (Some(br), true) => Rectangle::with_corners(br, r.top_left),
+            (Some(br), false) => Rectangle::with_corners(Point::new(br.x, r.top_left.y), Point::new(r.top_left.x, br.y)),
+            (None, _) => Rectangle { top_left: r.top_left, size: r.size },
+        }),
+        Shape::Circle(c) => Shape::Circle(if alt { Circle::with_center(c.center(), c.diameter) } else { Circle { top_left: c.top_left, diameter: c.diameter } }),
+        Shape::Ellipse(e) => Shape::Ellipse(if alt { Ellipse::with_center(e.center(), e.size) } else { Ellipse { top_left: e.top_left, size: e.size } }),
+        Shape::RRect(rr) => {
+            let c = rr.corners;
+            if c.top_left == c.top_right && c.top_left == c.bottom_left && c.top_left == c.bottom_right {
+                Shape::RRect(RoundedRectangle::with_equal_corners(rr.rectangle, c.top_left))
+            } else {
+                Shape::RRect(RoundedRectangle { rectangle: rr.rectangle, corners: c })
+            }
+        }
+        Shape::Triangle(t) => Shape::Triangle(if alt { Triangle::from_slice(&t.vertices) } else { Triangle { vertices: t.vertices } }),
+        Shape::Line(l) => Shape::Line(if alt { Line::with_delta(l.start, l.end - l.start) } else { Line { start: l.start, end: l.end } }),
+        Shape::Arc(a) => Shape::Arc(if alt {
+            Arc::from_circle(a.to_circle(), a.angle_start, a.angle_sweep)
+        } else {
+            Arc::with_center(a.center(), a.diameter, a.angle_start, a.angle_sweep)
+        }),
+        Shape::Sector(a) => Shape::Sector(if alt {
+            Sector::from_circle(a.to_circle(), a.angle_start, a.angle_sweep)
+        } else {
+            Sector::with_center(a.center(), a.diameter, a.angle_start, a.angle_sweep)
+        }),
+    }
+}
+
+fn shape_of_kind_plain(d: &mut Dec, kind: u32, dom: ShapeDom) -> Shape {
     let ShapeDom { r, max } = dom;
     match kind {
         0 => Shape::Rect(rect(d, r, max)),
@@ -507,6 +554,9 @@ pub fn large_size(d: &mut Dec, lo: u32, hi: u32) -> u32 {
             let b = d.pick(&[127u32, 128, 129, 255, 256, 257, 320, 240, 480, 511, 512, 513]);
             b.clamp(lo, hi)
         }
+        // the range between the small generators (up to about 60 px) and `lo`: a threshold somewhere in
+        // 60..100 is neither "small" nor "large"
+        1 if lo >= 100 => d.u(lo * 6 / 10, lo * 14 / 10),
         _ => d.u(lo, hi),
     }
 }
@@ -546,6 +596,11 @@ pub fn structure_triangle(d: &mut Dec, a: Point, b: Point, c: Point) -> (Point, 
 /// A large shape of the given kind: sizes / diameters / vertex spans in `lo..=hi`, positioned so
 /// that it straddles the origin or lies up to `hi` away from it.
 pub fn large_shape(d: &mut Dec, kind: u32, lo: u32, hi: u32) -> Shape {
+    let s = large_shape_plain(d, kind, lo, hi);
+    constructor_route(d, s)
+}
+
+fn large_shape_plain(d: &mut Dec, kind: u32, lo: u32, hi: u32) -> Shape {
     let r = hi as i32;
     let pos = |d: &mut Dec, w: u32, h: u32| match d.u(0, 2) {
         0 => Point::new(-(w as i32) / 2 + d.i(-3, 3), -(h as i32) / 2 + d.i(-3, 3)),
@@ -605,6 +660,23 @@ pub fn large_shape(d: &mut Dec, kind: u32, lo: u32, hi: u32) -> Shape {
 /// advanced exactly to the end of a row or to the end. `make` builds a fresh iterator; the ground truth is
 /// a plain `while let Some(x) = it.next()` loop. Uses up to 5 tape words.
 pub fn iterator_protocol<T, I>(make: &dyn Fn() -> I, d: &mut Dec, what: &str) -> crate::engine::Res
+where
+    T: PartialEq + core::fmt::Debug + Clone,
+    I: Iterator<Item = T> + Clone,
+{
+    iterator_protocol_inner(make, Some(|i: &I| i.clone()), d, what)
+}
+
+/// The same for an iterator type that is not `Clone`.
+pub fn iterator_protocol_noclone<T, I>(make: &dyn Fn() -> I, d: &mut Dec, what: &str) -> crate::engine::Res
+where
+    T: PartialEq + core::fmt::Debug + Clone,
+    I: Iterator<Item = T>,
+{
+    iterator_protocol_inner(make, None, d, what)
+}
+
+fn iterator_protocol_inner<T, I>(make: &dyn Fn() -> I, cl: Option<fn(&I) -> I>, d: &mut Dec, what: &str) -> crate::engine::Res
 where
     T: PartialEq + core::fmt::Debug + Clone,
     I: Iterator<Item = T>,
@@ -673,6 +745,11 @@ where
         return fail(format!("{}:iterator_size_hint", what), format!("size_hint() = {:?} after {} of {} items, {} remain", (lo, hi), k, n, tail.len()));
     }
     let method = d.u(0, 7);
+    // (derived choice, no tape word: three cases in eight use one of the further provided methods / a clone)
+    let method = match d.derived(0x17e2, 8) {
+        0..=4 => method,
+        m => m + 3,
+    };
     let report = |name: &str, got: String, exp: String| fail(format!("{}:iterator_{}", what, name), format!("after advancing by {} of {} items (first run {}): {}() gives {}, repeated next() gives {}", k, n, run, name, got, exp));
     match method {
         0 => {
@@ -725,6 +802,41 @@ where
             let c = it.skip(j).count();
             if c != tail.len().saturating_sub(j) {
                 return report("skip_count", c.to_string(), tail.len().saturating_sub(j).to_string());
+            }
+        }
+        8 if cl.is_some() => {
+            // a clone taken midway continues independently with the same items
+            let c = (cl.unwrap())(&it);
+            let j = d.derived(0x17e3, tail.len() as u32 + 1) as usize;
+            let head: Vec<T> = it.by_ref().take(j).collect();
+            let b: Vec<T> = c.collect();
+            let rest: Vec<T> = it.collect();
+            if b != tail || head != tail[..j.min(tail.len())] || rest != tail[j.min(tail.len())..] {
+                return report("clone", format!("clone: {} items, original: {} + {} items", b.len(), head.len(), rest.len()), format!("{} items", tail.len()));
+            }
+        }
+        9 => {
+            let j = d.derived(0x17e4, tail.len() as u32 + 1) as usize;
+            let mut i = 0usize;
+            let p = it.position(|_| {
+                i += 1;
+                i > j
+            });
+            let exp = if j < tail.len() { Some(j) } else { None };
+            if p != exp {
+                return report("position", format!("{:?}", p), format!("{:?}", exp));
+            }
+            let y = it.next();
+            if y.as_ref() != tail.get(j + 1).filter(|_| j < tail.len()) {
+                return report("next_after_position", format!("{:?}", y), format!("{:?}", tail.get(j + 1)));
+            }
+        }
+        10 => {
+            let step = 1 + d.derived(0x17e5, 4) as usize;
+            let v: Vec<T> = it.step_by(step).collect();
+            let exp: Vec<T> = tail.iter().step_by(step).cloned().collect();
+            if v != exp {
+                return report("step_by", format!("{} items starting {:?}", v.len(), v.first()), format!("{} items starting {:?}", exp.len(), exp.first()));
             }
         }
         _ => {
